@@ -24,10 +24,28 @@ theorem checkDH_source_shape :
     Facts.C13.checkDHBitsCond = "p.BitLen() != RSAKeyBits" ∧ Facts.C13.rsaKeyBits = 2048 ∧
       Facts.C13.primeRounds = 64 := by decide
 
-/-- Constants of `DecomposePQ`. -/
-theorem pq_constants :
-    Facts.C13.pqMask = 15 ∧ Facts.C13.pqAdd = 17 ∧ Facts.C13.pqRndBits = 64 ∧ Facts.C13.pqLimShift = 18 ∧
-      Facts.C13.pqValue0 = 0 ∧ Facts.C13.pqValue1 = 1 := by decide
+/-- The pieces of `DecomposePQ` **translated from the source** compute what the model's reading says:
+`v = ((r & 15) + 17) mod n`, `x = r mod (n−1) + 1`, `y = x`, `lim = 2^(i+18)`, `j = 1`; the
+multiplication step is one round of double-and-add modulo `n`; the tail computes `z = x − y mod n`,
+`g = gcd(z, n)`, saves `y` when `j` is a power of two, increments `j` and clears `flag` when `g ≠ 1`;
+the result is `(g, n/g)` in ascending order; the loops continue while `¬(1 < g < n)`, `j < lim ∧ flag`,
+`b > 0`; random words have 64 bits. -/
+theorem decomposePQ_pieces_are_spec :
+    (∀ r n, Facts.C13.pqDrawVT r n = ((r &&& 15) + 17) % n) ∧
+    (∀ r n i, Facts.C13.pqRoundInitT r n i = (n - 1, r % (n - 1) + 1, r % (n - 1) + 1, 2 ^ (i + 18), 1, true)) ∧
+    (∀ x v, Facts.C13.pqInnerInitT x v = (x, x, v)) ∧
+    (∀ a b c n, Facts.C13.pqMulStepT a b c n =
+      (b % 2, if b % 2 = 1 then addMod n a c else c, addMod n a a, b / 2)) ∧
+    (∀ c y n j flag, Facts.C13.pqInnerTailT c y n j flag =
+      (c, subMod n c y, Nat.gcd (subMod n c y) n, if j &&& (j - 1) = 0 then c else y, j + 1,
+        if Nat.gcd (subMod n c y) n ≠ 1 then false else flag)) ∧
+    (∀ g n, Facts.C13.pqFinishT g n = pqFinish n g) ∧
+    (∀ g n, (!Facts.C13.pqOuterContT g n) = true ↔ 1 < g ∧ g < n) ∧
+    (∀ j lim flag, Facts.C13.pqInnerContT j lim flag = (decide (j < lim) && flag)) ∧
+    (∀ b, Facts.C13.pqMulContT b = decide (0 < b)) ∧
+    Facts.C13.pqRndBits = 64 :=
+  ⟨pqDrawVT_spec, pqRoundInitT_spec, pqInnerInitT_spec, pqMulStepT_spec, pqInnerTailT_spec, pqFinishT_spec,
+    pqOuterContT_false_iff, pqInnerContT_spec, pqMulContT_spec, by decide⟩
 
 /-! ### CheckGP -/
 
@@ -164,7 +182,7 @@ theorem decompose_sound (n : Nat) (tape : List Nat) (p q : Nat)
     injection h with h
     injection h with h1 h2
     subst h1 h2
-    exact pqLoop_sound pq_constants.2.2.2.2.2 n tape 0 0 p' q' k (Or.inl (by omega)) hk
+    exact pqLoop_sound n tape 0 0 p' q' k (Or.inl (by omega)) hk
   · cases h
 
 /-- The inner binary-multiplication loop of `DecomposePQ` is Pollard's polynomial step
@@ -195,10 +213,10 @@ theorem decompose_prime_never_returns (n : Nat) (hn : n.Prime) (tape : List Nat)
 panics (division by zero in `v.Mod(v, what)` resp. `x.Mod(x, whatNext)`), modelled as `.panic`. -/
 theorem decompose_zero_one_panics (n : Nat) (hn : n ≤ 1) (r1 r2 : Nat) (rest : List Nat) :
     decomposePQ n (r1 :: r2 :: rest) = .error .panic := by
-  have h1 : Facts.C13.pqValue1 = 1 := pq_constants.2.2.2.2.2
   unfold decomposePQ pqLoop
-  have hc : ¬ (Facts.C13.pqValue1 < 0 ∧ 0 < n) := by omega
-  rw [if_neg hc, h1]
+  have hc : ¬ ((!Facts.C13.pqOuterContT 0 n) = true) := by
+    rw [pqOuterContT_false_iff]; omega
+  rw [if_neg hc]
   have : n = 0 ∨ n = 1 := by omega
   simp [this]
 
@@ -206,8 +224,9 @@ theorem decompose_zero_one_panics (n : Nat) (hn : n ≤ 1) (r1 r2 : Nat) (rest :
 gcd(7 − 2, 15) = 5, result swapped into ascending order). -/
 example : decomposePQ 15 [1, 1] = .ok (3, 5) := by
   have hm : mulAddLoop 15 2 2 3 = 7 := by
-    rw [mulAddLoop]; simp only [addMod]; rw [mulAddLoop]; simp only [addMod]; rw [mulAddLoop]; simp
-  simp [decomposePQ, pqLoop, rhoInner, hm, subMod, pqFinish, Facts.C13.pqValue1, Facts.C13.pqMask,
-    Facts.C13.pqAdd, Facts.C13.pqRndBits, Facts.C13.pqLimShift]
+    rw [mulAddLoop_eq 15 2 2 3 (by decide) (by decide)]
+  simp [decomposePQ, pqLoop, rhoInner, hm, pqDrawVT_spec, pqRoundInitT_spec,
+    pqInnerInitT_spec, pqInnerTailT_spec, pqInnerContT_spec, pqFinishT_spec, subMod, pqFinish,
+    Facts.C13.pqOuterContT, Facts.C13.pqRndBits]
 
 end TdModel.C13
